@@ -460,6 +460,9 @@ class HttpProxyPlugin(HttpProtocolHandlerPlugin):
                         assert self.pipeline_request is not None
                         r = plugin.handle_client_request(self.pipeline_request)
                         if r is None:
+                            # Dropped by the plugin.  Forget it, or the next
+                            # request is parsed into this (complete) parser.
+                            self.pipeline_request = None
                             return
                         self.pipeline_request = r
                     assert self.pipeline_request is not None
